@@ -251,6 +251,54 @@ def job(args):
                     # divergence / convective terms are odd-even consistent: the value itself is a scalar field -> equal
                     ok = is_zero(lhs - rhs)
                     ob('A3', f"{module}.{impl}/mirror={AX[a]}", ok, f"[{cls}] row {F.cstr(P)} mirrored differs from row {F.cstr(Pm)} by {fmt_rat(lhs - rhs, 6)}" if not ok else f"[{cls}] row {F.cstr(P)} <-> {F.cstr(Pm)}", fi.loc())
+        # boundary values mirror too: the faces of the mirrored axis swap, the coefficient of the derivative changes sign
+        # (d/dx -> -d/dx'), coefficient arrays on the other faces are reversed along the mirrored axis
+        FACE_OF = {0: ('left', 'right'), 1: ('bottom', 'top'), 2: ('back', 'front')}
+        AX_OF = {'left': 0, 'right': 0, 'bottom': 1, 'top': 1, 'back': 2, 'front': 2}
+        gi = F.implementer(sm, 'boundary', 'cellValuesWithBoundaries', cls)[0]
+        ri = F.implementer(sm, 'boundary', 'boundaryConditionsTerm', cls)[0]
+        gfi, rfi = sm.func('boundary', gi), sm.func('boundary', ri)
+        units.update({f"boundary.{gi}", f"boundary.{ri}"})
+        bc = w.boundary_conditions()
+        phi_int = Box(atom_array(('phi',), w.N, offset=tuple(ONE for _ in w.N)))
+        ghost = snap(w.call('boundary', 'cellValuesWithBoundaries', phi_int, bc))
+        Mb, Rb = w.call('boundary', 'boundaryConditionsTerm', bc)
+        for a in range(d):
+            n = w.N[a]
+            base = mirror(a, n)
+
+            def fnb(k, rec, a=a, n=n, base=base):
+                if k[0] == 'bc':
+                    face, coef = k[1], k[2]
+                    axf = AX_OF[face]
+                    trans = [j for j in range(d) if j != axf]
+                    idx = [rec(z) for z in k[3:]]
+                    if axf == a:
+                        other = FACE_OF[a][1] if face == FACE_OF[a][0] else FACE_OF[a][0]
+                        return (-1 if coef == 'a' else 1) * Rat.atom(('bc', other, coef) + tuple(idx))
+                    if a in trans:
+                        j = trans.index(a)
+                        idx[j] = n - 1 - idx[j]
+                    return Rat.atom(('bc', face, coef) + tuple(idx))
+                return base(k, rec)
+            for gpos, nm in ((ZERO, 'low'), (n + 1, 'high')):
+                G = tuple(gpos if k == a else w.t[k] for k in range(d))
+                Gm = tuple((n + 1 - gpos) if k == a else w.t[k] for k in range(d))
+                lhs = deep_map(ghost.at(G), fnb)
+                rhs = ghost.at(Gm)
+                ob('A3', f"boundary.{gi}/mirror={AX[a]}", is_zero(lhs - rhs), f"[{cls}] ghost {F.cstr(G)} mirrored vs ghost {F.cstr(Gm)}: difference {fmt_rat(lhs - rhs, 5)}", gfi.loc())
+                r1 = deep_map(apply_row(w.matrix_row(Mb, G), 'phi') - w.vector_at(Rb, G), fnb)
+                r2 = apply_row(w.matrix_row(Mb, Gm), 'phi') - w.vector_at(Rb, Gm)
+                ob('A3', f"boundary.{ri}/mirror={AX[a]}", is_zero(r1 - r2) or is_zero(r1 + r2), f"[{cls}] boundary row {F.cstr(G)} mirrored vs row {F.cstr(Gm)}: difference {fmt_rat(r1 - r2, 5)}", rfi.loc())
+            # a ghost on another axis, seen from the mirrored position
+            for b in range(d):
+                if b == a:
+                    continue
+                G = tuple(ZERO if k == b else w.t[k] for k in range(d))
+                Gm = tuple((n + 1 - G[k]) if k == a else G[k] for k in range(d))
+                lhs = deep_map(ghost.at(G), fnb)
+                rhs = deep_map(ghost.at(Gm), lambda k, rec: None)
+                ob('A3', f"boundary.{gi}/mirror={AX[a]}", is_zero(lhs - rhs), f"[{cls}] ghost {F.cstr(G)} (axis {AX[b]}) mirrored vs ghost {F.cstr(Gm)}: difference {fmt_rat(lhs - rhs, 5)}", gfi.loc())
         return dict(obs=obs, units=sorted(units), samples=samples)
 
     if kind == 'seam':
